@@ -627,6 +627,11 @@ int main()
           else if (e == "HUP") rev = POLLHUP;
           else if (e == "ERR") rev = POLLERR;
           else if (e == "OUT") { g_wscript = (w[3] == "1") ? -1 : 0; rev = POLLOUT; }
+          if (e == "DATA" || e == "EOF")
+          {   // loopback delivery is asynchronous: wait until the kernel has the byte / the FIN on the receiving side
+            struct pollfd pf = {cr.fd, POLLIN | POLLRDHUP, 0};
+            if (::poll(&pf, 1, 5000) <= 0) { fprintf(stderr, "harness: peer data did not arrive\n"); return 3; }
+          }
           p.reset();      // the dispatch must not be kept alive by the harness: Channel::handleEvent takes its own guard
           LoopRec* r = loops[static_cast<size_t>(cr.loop)];
           r->w.exec([ch, rev]() { ch->set_revents(rev); ch->handleEvent(Timestamp::now()); });
@@ -837,6 +842,9 @@ int main()
     string cli = "-";
     if (client && client->connection_)
       for (size_t i = 0; i < g_conns.size(); ++i) if (g_conns[i].raw == client->connection_.get() && !g_conns[i].weak.expired()) cli = std::to_string(i);
+    if (getenv("C02_DEBUG"))
+      for (size_t i = 0; i < g_conns.size(); ++i)
+        if (!g_conns[i].weak.expired()) fprintf(stderr, "  dbg conn %zu fd=%d index=%d events=%d\n", i, g_conns[i].fd, g_conns[i].raw->channel_->index(), g_conns[i].raw->channel_->events());
     printf("%s ev=%s | %s | q=%s srv=%d:%zu cli=%d:%s\n", rejected ? "rejected" : "ok", ev.c_str(), cs.c_str(), qs.c_str(),
            server ? 1 : 0, server ? server->connections_.size() : static_cast<size_t>(0), client ? 1 : 0, cli.c_str());
     fflush(stdout);
